@@ -2746,7 +2746,7 @@ fn main() {
                     entry["replay"] = json!(path);
                 }
             }
-            if violations.len() < 400 {
+            if violations.len() < 3000 && violations.iter().filter(|v: &&serde_json::Value| v["kind"] == entry["kind"]).count() < 25 {
                 violations.push(entry);
             }
         }
